@@ -23,6 +23,8 @@ import (
 	"github.com/vx-labs/wasp/v4/wasp/transport"
 	"go.uber.org/zap"
 	"google.golang.org/grpc"
+	"google.golang.org/grpc/codes"
+	"google.golang.org/grpc/status"
 	"google.golang.org/grpc/test/bufconn"
 )
 
@@ -348,20 +350,21 @@ type Node struct {
 	Dist    *wasp.PublishDistributor
 	Auth    wasp.AuthenticationHandler
 
-	ctx      context.Context
-	cancel   context.CancelFunc
-	wg       sync.WaitGroup
-	wctx     context.Context
-	wcancel  context.CancelFunc
-	wwg      sync.WaitGroup
-	grpcSrv  *grpc.Server
-	lis      *bufconn.Listener
-	client   *grpc.ClientConn
-	Down     bool
-	lives    int
-	sentinel *Conn
-	sentN    int
-	sentBuf  []byte
+	ctx                      context.Context
+	cancel                   context.CancelFunc
+	wg                       sync.WaitGroup
+	wctx                     context.Context
+	wcancel                  context.CancelFunc
+	wwg                      sync.WaitGroup
+	grpcSrv                  *grpc.Server
+	lis                      *bufconn.Listener
+	client                   *grpc.ClientConn
+	Down                     bool
+	lives                    int
+	loseReplies, repliesLost int64
+	sentinel                 *Conn
+	sentN                    int
+	sentBuf                  []byte
 }
 
 // NodeOpts configures AddNode.
@@ -464,7 +467,17 @@ func (cl *Cluster) buildNode(id uint64, name string, o NodeOpts) (*Node, error) 
 
 	// inter-node RPC: the real mqttServer on an in-memory gRPC listener
 	n.lis = bufconn.Listen(1 << 20)
-	n.grpcSrv = grpc.NewServer()
+	n.grpcSrv = grpc.NewServer(grpc.UnaryInterceptor(func(ctx context.Context, req interface{}, info *grpc.UnaryServerInfo, handler grpc.UnaryHandler) (interface{}, error) {
+		resp, err := handler(ctx, req)
+		if err == nil && atomic.LoadInt64(&n.loseReplies) > 0 {
+			// the call was executed here; the caller never sees the reply: to gRPC's client side a
+			// connection that breaks at that moment is "Unavailable"
+			atomic.AddInt64(&n.loseReplies, -1)
+			atomic.AddInt64(&n.repliesLost, 1)
+			return nil, status.Error(codes.Unavailable, "transport is closing")
+		}
+		return resp, err
+	}))
 	wasp.NewMQTTServer(n.State, n.Local, n.Log, n.Dist, nil).Serve(n.grpcSrv)
 	n.goRun(func() { n.grpcSrv.Serve(n.lis) })
 	cc, err := grpc.DialContext(n.ctx, "bufnet", grpc.WithInsecure(), grpc.WithContextDialer(func(ctx context.Context, s string) (net.Conn, error) {
@@ -498,6 +511,13 @@ func (cl *Cluster) buildNode(id uint64, name string, o NodeOpts) (*Node, error) 
 	n.Local.real.Create(n.sentinelID(), ss)
 	return n, nil
 }
+
+// LoseReplies makes the next k inter-node calls served by this node succeed locally while
+// their caller gets codes.Unavailable (the connection broke before the reply arrived).
+func (n *Node) LoseReplies(k int) { atomic.StoreInt64(&n.loseReplies, int64(k)) }
+
+// RepliesLost counts the replies dropped that way so far.
+func (n *Node) RepliesLost() int64 { return atomic.LoadInt64(&n.repliesLost) }
 
 func (n *Node) sentinelID() string { return "sentinel-" + n.Name }
 
